@@ -20,6 +20,10 @@
 (***************************************************************************)
 EXTENDS Ledger
 
+CONSTANT StrictOrder   \* TRUE: the node never has a tip and an unconfirmed transaction in flight to the
+                       \* wallet at the same time (no race between the two notification queues);
+                       \* FALSE: any interleaving (the Go select picks at random among ready queues)
+
 VARIABLES wchain, pend, wmem, memp, up
 
 followerVars == <<wchain, pend, wmem, memp, up>>
@@ -37,12 +41,43 @@ Abs(wc, nb) ==
     ELSE IF OnBest(nb) THEN Path(nb)                           \* connect / reorganise
     ELSE wc                                                    \* revoked meanwhile: no effect
 
-\* non-coinbase relevant transactions of the blocks of wc that are not in wc2
-RolledBack(wc, wc2) ==
-    LET gone == {wc[h] : h \in {i \in DOMAIN wc : i > Len(wc2) \/ wc2[i] # wc[i]}}
-    IN {t \in UNION {Range(content[b]) : b \in gone} : Relevant(t, Ready)}
+(***************************************************************************)
+(* What a block step does to the pending set (txstore.go: Rollback,        *)
+(* insertMinedTx, removeDoubleSpends, removeConflict), as the code does it:*)
+(*  - every relevant non-coinbase transaction of a disconnected block      *)
+(*    returns to the pending set;                                          *)
+(*  - pending spenders of a disconnected wallet coinbase output are        *)
+(*    dropped, with their pending descendants;                             *)
+(*  - every relevant transaction of a connected block leaves the pending   *)
+(*    set, and every pending transaction that spends a wallet-owned input  *)
+(*    of it (a conflict) is dropped, with its pending descendants.         *)
+(* Descendants are found through the pending-input index, which holds the  *)
+(* wallet-owned inputs of announced transactions (the universes have no    *)
+(* stranger-owned inputs, so this is every input).                         *)
+(* Settle (Ledger.tla) is the ideal; PendingExact states where they meet.  *)
+(***************************************************************************)
+GoneBlocks(wc, wc2) == {wc[h] : h \in {i \in DOMAIN wc : i > Len(wc2) \/ wc2[i] # wc[i]}}
+NewBlocks(wc, wc2)  == {wc2[h] : h \in {i \in DOMAIN wc2 : i > Len(wc) \/ wc2[i] # wc[i]}}
 
-PendAfter(p, wc, wc2) == Settle(p \cup RolledBack(wc, wc2), CC(wc2))
+\* non-coinbase relevant transactions of the disconnected blocks
+RolledBack(wc, wc2) ==
+    {t \in UNION {Range(content[b]) : b \in GoneBlocks(wc, wc2)} : Relevant(t, Ready)}
+
+RECURSIVE Desc(_, _)
+Desc(p, R) ==
+    LET more == {u \in p \ R : \E op \in TxIns[u] : op[1] \in R /\ OutOf(op).owner \in Ready}
+    IN IF more = {} THEN R ELSE Desc(p, R \cup more)
+
+PendAfter(p, wc, wc2) ==
+    LET rb    == RolledBack(wc, wc2)
+        p1    == p \cup rb
+        \* spenders of wallet coinbase outputs of disconnected blocks
+        cbGone == {<<CbId[b], 1>> : b \in {x \in GoneBlocks(wc, wc2) : CbOut[x].owner \in Ready}}
+        orph  == {u \in p1 : TxIns[u] \cap cbGone # {}}
+        p2    == p1 \ Desc(p1, orph)
+        mined == {t \in UNION {Range(content[b]) : b \in NewBlocks(wc, wc2)} : Relevant(t, Ready)}
+        confl == {u \in p2 \ mined : \E t \in mined : \E op \in TxIns[t] \cap TxIns[u] : OutOf(op).owner \in Ready}
+    IN (p2 \ mined) \ Desc(p2 \ mined, confl)
 
 (***************************************************************************)
 (* The code's algorithm (processConnectedBlock + reorg), transcribed.      *)
@@ -158,5 +193,5 @@ AlgoAgrees == (up /\ ntfB # <<>> /\ wmem = (IF wchain = <<>> THEN 0 ELSE Last(wc
 MemTipIsDurableTip == up => wmem = (IF wchain = <<>> THEN 0 ELSE Last(wchain))
 
 \* C09 (design level): the pending set never contains a confirmed or conflicted transaction
-PendingExact == Quiescent => pend = Settle(pend, CC(wchain)) /\ pend \cap TxsOn(CC(wchain)) = {}
+PendingExact == Quiescent => pend = Settle(pend, CC(wchain))
 =============================================================================
